@@ -29,7 +29,7 @@ Definition round_hook_d (evs : list ev) : option (hook_kind * json * dresp) :=
           | Some r =>
               let pns := get_ns (jget "object" (obj_map body)) in
               Some (hk, body, mkDR (dr_labels r) (dr_annotations r) (dr_status r)
-                                   (map (default_ns pns) (filter is_some (dr_attachments r)))
+                                   (map (default_ns pns) (filter opt_is_some (dr_attachments r)))
                                    (dr_resync r) (dr_finalized r))
           | None => None end
       | _, _ => None
@@ -50,7 +50,7 @@ Definition post_state (e : ev) : json :=
   if is_null (e_post e) then match e_ans e with AObj o => o | _ => JNull end else e_post e.
 
 (* ---------- clause 1: what an accepted write may change on the target ---------- *)
-Definition keys_of {A} (m : list (string * A)) : list string := map fst m.
+Definition mkeys {A} (m : list (string * A)) : list string := map fst m.
 
 (* the two string maps agree on every key outside [named] *)
 Definition smap_agree_outside (named : list string) (a b : smap) : bool :=
@@ -58,7 +58,7 @@ Definition smap_agree_outside (named : list string) (a b : smap) : bool :=
                     match slookup k a, slookup k b with
                     | Some x, Some y => String.eqb x y
                     | None, None => true
-                    | _, _ => false end) (keys_of a ++ keys_of b).
+                    | _, _ => false end) (mkeys a ++ mkeys b).
 
 Definition without_fin (f : string) (o : json) : list string :=
   filter (fun x => negb (String.eqb x f)) (get_finalizers o).
@@ -76,7 +76,7 @@ Definition target_diff_clause (fin : string) (named_l named_a : list string) (pr
   if negb (jeqb (jget "spec" (obj_map pre)) (jget "spec" (obj_map post))) then Some "spec-changed" else
   if negb (jeqb (other_fields pre) (other_fields post)) then Some "other-field-changed" else
   if negb (smap_agree_outside named_l (get_labels pre) (get_labels post)) then Some "foreign-label-changed" else
-  if negb (smap_agree_outside named_a (get_annotations pre) (get_annotations post)) then Some "foreign-annotation-changed" else
+  if negb (smap_agree_outside named_a (annots_of pre) (annots_of post)) then Some "foreign-annotation-changed" else
   if negb (strs_eqb (without_fin fin pre) (without_fin fin post)) then Some "foreign-finalizer-changed" else
   if negb (jeqb (other_metadata pre) (other_metadata post)) then Some "other-metadata-changed" else
   None.
@@ -87,7 +87,7 @@ Definition is_target_write (c : dcfg) (parent : json) (e : ev) : bool :=
 Definition C16_target_diff (c : dcfg) (parent : json) (evs : list ev) : option string :=
   let fin := d_finalizer_name c in
   let '(nl, na) := match round_hook_d evs with
-                   | Some (_, _, r) => (keys_of (dr_labels r), keys_of (dr_annotations r))
+                   | Some (_, _, r) => (mkeys (dr_labels r), mkeys (dr_annotations r))
                    | None => ([], []) end in
   let check := fun (nl na : list string) (e : ev) =>
     if is_target_write c parent e && accepted e then
@@ -127,9 +127,9 @@ Definition C16_null_deletes_unnamed_stay (c : dcfg) (parent : json) (evs : list 
         if is_target_verb c parent VUpdate e && accepted e then
           let post := post_state e in
           orelse_s (named_as_asked (dr_labels r) (get_labels post))
-            (orelse_s (named_as_asked (dr_annotations r) (get_annotations post))
-               (if smap_agree_outside (keys_of (dr_labels r)) (get_labels (e_pre e)) (get_labels post) &&
-                   smap_agree_outside (keys_of (dr_annotations r)) (get_annotations (e_pre e)) (get_annotations post)
+            (orelse_s (named_as_asked (dr_annotations r) (annots_of post))
+               (if smap_agree_outside (mkeys (dr_labels r)) (get_labels (e_pre e)) (get_labels post) &&
+                   smap_agree_outside (mkeys (dr_annotations r)) (annots_of (e_pre e)) (annots_of post)
                 then None else Some "unnamed-key-changed"))
         else None) (after_hook evs)
   end.
@@ -169,7 +169,7 @@ Definition map_is_noop (upd : list (string * option string)) (m : smap) : bool :
 
 Definition resp_is_noop (c : dcfg) (sent : json) (r : dresp) : bool :=
   map_is_noop (dr_labels r) (get_labels sent) &&
-  map_is_noop (dr_annotations r) (get_annotations sent) &&
+  map_is_noop (dr_annotations r) (annots_of sent) &&
   (is_null (dr_status r) ||
    match status_map sent with Some st => jeqb st (dr_status r) | None => false end) &&
   negb (dr_finalized r && has_finalizer sent (d_finalizer_name c)).
@@ -200,7 +200,7 @@ Definition C16_selected_only (c : dcfg) (k : dcache) (evs : list ev) : option st
       | Some rl =>
           if has_finalizer t (d_finalizer_name c) then None else
           if negb (sel_matches (rl_label_sel rl) (get_labels t)) then Some "label-selector-not-satisfied" else
-          if negb (sel_matches (rl_annot_sel rl) (get_annotations t)) then Some "annotation-selector-not-satisfied" else
+          if negb (sel_matches (rl_annot_sel rl) (annots_of t)) then Some "annotation-selector-not-satisfied" else
           None
       end
   end.
@@ -243,7 +243,6 @@ Definition C16_attachments_marker (c : dcfg) (k : dcache) (parent : json) (evs :
             | None => None
             | Some q =>
                 if targets_d c parent q || negb (is_write q) then None else
-                if negb (is_attachment_res c (q_res q)) then Some "write-to-resource-outside-attachment-rules" else
                 match q_verb q with
                 | VCreate =>
                     if negb (has_marker c (q_body q)) then Some "attachment-created-without-marker" else
